@@ -67,6 +67,7 @@ def _large(rng):
 
 
 def run_case(case, rng):
+    from mon import defaults as Dflt
     from msdm.algorithms import ValueIteration, PolicyIteration
     from mon.gen import build as Bd
     from mon.probe import read as Rd
@@ -289,7 +290,9 @@ def run_case(case, rng):
 
     # ---- value iteration, both versions ------------------------------------------------------
     for ver, key in (("vectorized", "vi_vec"), ("dict", "vi_dict")):
-        vi = ValueIteration(max_iterations=cap, max_residual=eps, undefined_value=ph, _version=ver)
+        vkw, om = Dflt.rely_on_defaults(case, rng, "ValueIteration", dict(max_iterations=cap, max_residual=eps, undefined_value=ph, _version=ver))
+        vi = ValueIteration(**vkw)
+        Dflt.in_force(case, "ValueIteration", vi, om)
         res = case.call(f"{key}.plan_on", vi.plan_on, mdp, facts=dict(algorithm=key, gamma=gamma))
         case.count(f"{key}_calls")
         if res is case.FAIL:
@@ -307,7 +310,9 @@ def run_case(case, rng):
     # ---- policy iteration --------------------------------------------------------------------
     pi_cap = cap if cap < 1e5 else 1000
     facts_pi = dict(algorithm="pi", gamma=gamma, zero_closed_set=zero_closed, family=fam)
-    pi = PolicyIteration(max_iterations=pi_cap, undefined_value=ph)
+    pkw, om = Dflt.rely_on_defaults(case, rng, "PolicyIteration", dict(max_iterations=pi_cap, undefined_value=ph))
+    pi = PolicyIteration(**pkw)
+    Dflt.in_force(case, "PolicyIteration", pi, om)
     res = case.call("pi.plan_on", pi.plan_on, mdp, facts=facts_pi)
     case.count("pi_calls")
     res_pi_single = res        # judged only AFTER the same planner has solved a same-shape batch (below)
